@@ -1,2 +1,4 @@
 pub mod lex;
 pub mod parse;
+pub mod astwalk;
+pub mod ser;
